@@ -114,6 +114,10 @@ class MapSpec(H.Spec):
             ops.append(('m_extend_iter', [['d', 2], ['c', 1]], False, 'gen'))
             ops.append(('m_extend_iter', [['d', 2]], False, 'zip'))
             ops.append(('m_extend_iter', [['a', 2], ['d', 1]], True, 'iter'))
+            # the source is itself an ordered map whose order was reached by relocation / sort / reverse: its documented order counts
+            ops.append(('m_extend_map', [['d', 2], ['c', 1]], True, 'relocated'))
+            ops.append(('m_extend_map', [['d', 2], ['b', 1], ['a', 1]], False, 'reversed'))
+            ops.append(('m_extend_map', [['c', 2], ['d', 1]], True, 'metadata-sorted'))
         return ops
 
     # ---- reference semantics -------------------------------------------------------------------
@@ -205,6 +209,13 @@ class MapSpec(H.Spec):
             return self.model_step(m, ('add_plain', op[1], 'M', True))
         if kind == 'm_append_v':
             return self.model_step(m, ('add_plain', op[1], op[2], op[3]))
+        if kind == 'm_extend_map':
+            items = self.source_order(op[1], op[3])
+            for k, v in items:
+                r = self.model_step(m, ('add_plain', k, v, op[2]))
+                if r[0] == 'raise':
+                    return ('raise-partial', r[1])
+            return ('ok', None, None)
         if kind in ('m_extend', 'm_extend_dict', 'm_extend_iter'):
             items = list(op[1].items()) if kind == 'm_extend_dict' else op[1]
             rep = True if kind == 'm_extend_dict' else op[2]
@@ -259,12 +270,40 @@ class MapSpec(H.Spec):
             return d.extend([tuple(x) for x in op[1]], replace=op[2])
         elif kind == 'm_extend_dict':
             return d.extend(dict(op[1]))
+        elif kind == 'm_extend_map':
+            return d.extend(self.source_map(op[1], op[3]), replace=op[2])
         elif kind == 'm_extend_iter':
             pairs = [tuple(x) for x in op[1]]
             src = {'gen': (p for p in pairs), 'zip': zip([p[0] for p in pairs], [p[1] for p in pairs]), 'iter': iter(pairs)}[op[3]]
             return d.extend(src, replace=op[2])
         else:
             raise HarnessError('unknown op %r' % (op,))
+
+    @staticmethod
+    def source_order(pairs, how):
+        """Documented order of the source map built by source_map()."""
+        pairs = [list(p) for p in pairs]
+        if how == 'relocated':
+            return pairs[1:] + pairs[:1] if False else [pairs[-1]] + pairs[:-1]
+        if how == 'reversed':
+            return list(reversed(pairs))
+        return sorted(pairs)
+
+    def source_map(self, pairs, how):
+        if how == 'metadata-sorted':
+            src = self.MO()
+        else:
+            src = self.SD()
+        for k, v in pairs:
+            src[k] = v
+        if how == 'relocated':
+            k, v = pairs[-1]
+            src.add_item(k, v, index=0)          # the last key moves to the front
+        elif how == 'reversed':
+            src.reverse()
+        else:
+            src.sort()
+        return src
 
     @staticmethod
     def keyfn(name, k, vals):
